@@ -160,6 +160,10 @@ func checkDecoderSlots(r *Report, rule string) {
 		sv := st.val
 		// the value may be built by a helper that returns it (by value) next
 		// to its verdict: what that helper returns on success
+		if pv := P.pointeeOfHelperResult(sv); pv != nil {
+			// *h(...): the value of the local whose address the helper returns
+			sv = pv
+		}
 		for k := 0; k < 2 && (sv.Op == "res" || sv.Op == "call"); k++ {
 			nv := P.expandOuter(sv)
 			if nv.eq(sv) {
@@ -390,4 +394,42 @@ func (P *Prog) headersThroughHelper(V *Term) *Term {
 		return updatePath(V, []string{"Headers"}, r)
 	}
 	return V
+}
+
+// pointeeOfHelperResult: t is *res<0>(h(args)) where every delivering exit of
+// the in-package helper h returns the address of one local: the value that
+// local holds at the exit (parameters substituted), or nil.
+func (P *Prog) pointeeOfHelperResult(t *Term) *Term {
+	if t.Op != "load" || len(t.Args) != 1 {
+		return nil
+	}
+	r := t.Args[0]
+	if !(r.Op == "res" && r.S == "0" && len(r.Args) == 1 && r.Args[0].Op == "call") {
+		return nil
+	}
+	call := r.Args[0]
+	h := P.calleeOfTerm(call)
+	if h == nil {
+		return nil
+	}
+	m := map[string]*Term{}
+	for i, a := range call.Args {
+		m[itoa(int64(i))] = a
+	}
+	var out *Term
+	for _, hx := range P.factsOf(h).exits {
+		if hx.kind == exitFailure {
+			continue
+		}
+		a, ok := hx.ret.Results[0].(*ssa.Alloc)
+		if !ok {
+			return nil
+		}
+		v := P.terms.loadPath(a, nil, hx.ret).subst(m)
+		if out != nil && !out.eq(v) {
+			return nil
+		}
+		out = v
+	}
+	return out
 }
